@@ -154,6 +154,38 @@ pub fn mech_from_str(s: &str) -> Mech {
     }
 }
 
+/// Escapes a credential string for the one-line cfg record (whitespace of any kind, '=' and '%' and
+/// everything outside printable ASCII become %XX per UTF-8 byte).
+pub fn esc(s: &str) -> String {
+    let mut o = String::new();
+    for b in s.bytes() {
+        if b.is_ascii_graphic() && b != b'%' && b != b'=' {
+            o.push(b as char);
+        } else {
+            o.push_str(&format!("%{:02X}", b));
+        }
+    }
+    o
+}
+
+pub fn unesc(s: &str) -> String {
+    let b = s.as_bytes();
+    let mut out = vec![];
+    let mut i = 0;
+    while i < b.len() {
+        if b[i] == b'%' && i + 2 < b.len() + 1 && s.is_char_boundary(i + 1) && s.is_char_boundary(i + 3) {
+            if let Ok(v) = u8::from_str_radix(&s[i + 1..i + 3], 16) {
+                out.push(v);
+                i += 3;
+                continue;
+            }
+        }
+        out.push(b[i]);
+        i += 1;
+    }
+    String::from_utf8_lossy(&out).to_string()
+}
+
 pub fn cfg_to_line(c: &Cfg) -> String {
     let tr = match c.transport {
         Transport::Unreliable { rto_ns, gran_ns, rm, rc } => {
@@ -167,8 +199,8 @@ pub fn cfg_to_line(c: &Cfg) -> String {
         c.max_tx,
         mech_to_str(&c.mech),
         c.fp as u8,
-        c.user,
-        c.password,
+        esc(&c.user),
+        esc(&c.password),
         c.realm,
         c.srv_cookie as u8,
         c.srv_anon as u8,
@@ -201,8 +233,8 @@ pub fn cfg_from_line(s: &str) -> Cfg {
         max_tx: kv_u64(&kv, "max_tx", 10) as usize,
         mech: mech_from_str(&kv_str(&kv, "mech", "none")),
         fp: kv_u64(&kv, "fp", 0) != 0,
-        user: kv_str(&kv, "user", "user"),
-        password: kv_str(&kv, "password", "password"),
+        user: unesc(&kv_str(&kv, "user", "user")),
+        password: unesc(&kv_str(&kv, "password", "password")),
         realm: kv_str(&kv, "realm", "example.org"),
         srv_cookie: kv_u64(&kv, "cookie", 0) != 0,
         srv_anon: kv_u64(&kv, "anon", 0) != 0,
@@ -219,7 +251,7 @@ pub fn cfg_from_line(s: &str) -> Cfg {
 }
 
 const USERS: &[&str] = &["user", "alice", "bob-42", "u", "caf\u{e9}", "\u{30de}\u{30c8}\u{30ea}"];
-const PASSWORDS: &[&str] = &["password", "p", "s3cr3t/+=", "TheMatrIX", "pa\u{df}wort", "0123456789abcdef0123456789abcdef0123456789abcdef0123456789abcdef-long"];
+const PASSWORDS: &[&str] = &["password", "p", "s3cr3t/+=", "TheMatrIX", "pa\u{df}wort", "nb\u{a0}sp\u{2003}pw and space", "caf-e\u{301}-\u{212b}ngstrom", "0123456789abcdef0123456789abcdef0123456789abcdef0123456789abcdef-long"];
 // ASCII only: the library's quoted-string grammar rejects most non-ASCII text in REALM/NONCE (not a
 // subject of the claimed properties), so non-ASCII realms would only exercise "undecodable challenge"
 const REALMS: &[&str] = &["example.org", "r", "realm.test", "a-much-longer-realm.with.many.labels.example.net"];
@@ -1053,7 +1085,7 @@ impl<'a> World<'a> {
                     Some(l) if l.iter().any(|(a, _)| *a == wire::ALG_SHA256) => wire::ALG_SHA256,
                     _ => wire::ALG_MD5,
                 };
-                wire::long_term_key(alg, &self.cfg.user, &self.server.ses_realm, &self.cfg.password)
+                wire::long_term_key(alg, &self.cfg.user, &self.server.ses_realm, &self.cfg.pw())
             }
             Mech::None => b"no-key".to_vec(),
         }
@@ -1802,7 +1834,7 @@ pub fn run(src: &mut Source, profile: &Profile, opts: &RunOpts) -> RunResult {
     let server = RefServer::new(ServerCfg {
         mech: cfg.mech.clone(),
         user: cfg.user.clone(),
-        password: cfg.password.clone(),
+        password: cfg.pw(),
         realm: cfg.realm.clone(),
         cookie: cfg.srv_cookie,
         anon: cfg.srv_anon,
